@@ -57,6 +57,9 @@ CHECKS = {
  "C15": ("runtime differential monitor: generated POM lineages written to disk, effective dependencies computed by the library's documented pipeline (the example's own mergeParents, copied verbatim from the tree under test at build time, + ProcessDependencies) and by Maven 3.8.7's ModelBuilder in a side JVM; interpolation termination monitor over generated property tables",
          "Exploration: ordered dependency and managed-dependency lists (group, artifact, version, type, classifier, scope, optional, exclusions) must be equal for every lineage Maven accepts; differences are attributed to the one open finding only by a remove-the-shape-and-re-run-both-sides reduction; property tables (cycles, self-references) must terminate and leave unknown placeholders in place.",
          "Maven 3.8.7 is the only reference available; generator exclusions are listed in evidence.", "§6 C15"),
+ "C04": ("runtime crash/hang monitor: every exported parsing/matching entry point x system driven with random, grammar-derived, mutated and very long inputs in child processes (input logged before each call, recover around each call, memory cap, watchdog + solo re-run), resolvers over hostile universes under a logical step budget",
+         "Exploration: a recovered panic, a child death (fatal error, stack overflow, memory cap) reproduced by a solo re-run, a call that does not return within the watchdog even alone, or a resolution still asking the client after 5x the step budget is a violation with the logged input as witness; every (entry point, system) pair is gated to a minimum call count.",
+         "Wall clock is used only by the outer watchdog (a second firing is inconclusive); super-linear but terminating running times are not reported.", "§6 C04"),
 }
 NOT_YET = {}
 
